@@ -478,6 +478,7 @@ class Engines:
         ctx = self.ctx
         icasesA, idxA, mcases, specs = [], [], [], []
         implB = {}
+        t0 = time.time()
         for k, c in enumerate(cases):
             d = c["dir"]
             write_tree(d, c["fs"])
@@ -502,8 +503,15 @@ class Engines:
                 env = {} if c["wcoll"] is None else {"WCOLL": c["wcoll"]}
                 rc, out, err = self.real.run(argv, env=env, stdin=c["stdin"], timeout=10, cwd=d)
                 implB[k] = canon_real(rc, out, err)
+        t1 = time.time()
         iresA = ctx.run_lines([self.harness], icasesA)
+        t2 = time.time()
         mres = ctx.run_lines([self.model], mcases, env={"OCAMLRUNPARAM": "l=4G"}, crash_tag="MODEL-CRASH")
+        t3 = time.time()
+        if os.environ.get("C10_DUMP"):
+            open(os.environ["C10_DUMP"], "w").write("\n".join(mcases) + "\n")
+            shutil.copy(self.model, os.environ["C10_DUMP"] + ".runner")
+        ctx.log("timing: write+oracle+real binary %.1fs, harness %.1fs, model %.1fs" % (t1 - t0, t2 - t1, t3 - t2))
         ires = [None] * len(cases)
         for k, v in zip(idxA, iresA):
             ires[k] = v
